@@ -612,13 +612,14 @@ def explore(tier, seed, res=None, replay=None):
                                  "finding": None,
                                  "why": "response.evaluate_new_data(new frame) is not the trials the "
                                         "response expression denotes on the new frame"})
-    if replay is None:
+    bad_replay = replay is not None and replay.get("kind") == "bad-response"
+    if replay is None or bad_replay:
         df = frames.get(0, designs.gen_frame(rng_for(seed, "c15", "frame", 0)))
-        for bad in BAD_RESPONSES:
+        for bad in ([replay["formula"][:-len(" ~ x")]] if bad_replay else BAD_RESPONSES):
             res.evaluations += 1
             err, dm = run(f"{bad} ~ x", df)
             if not err:
-                res.failures.append({"case": {"formula": f"{bad} ~ x"}, "impl": "accepted",
+                res.failures.append({"case": {"formula": f"{bad} ~ x", "kind": "bad-response"}, "impl": "accepted",
                                      "expected": "refused", "finding": None,
                                      "why": "a response that is not a single term is accepted"})
             else:
